@@ -2,8 +2,8 @@
 # tools/confirm_seed.sh C10 A   -- confirm a sub-agent's seeded change in a scratch copy and file it under seeded/
 # confirms: patch applies; full test suite passes with it (PYTHONPATH on the scratch copy); demo exits 1 with it, 0 without.
 ID=$1; V=$2
-SRC=/tmp/seed-$ID-work/$V
-DST=/verif/seeded/$ID-$V
+SRC=${3:-/tmp/seed-$ID-work/$V}
+DST=/verif/seeded/$ID-${4:-$V}
 [ -f $SRC/patch.diff ] || { echo "$ID-$V: no patch"; exit 2; }
 D=$(mktemp -d /tmp/confirm-XXXXXX)
 trap 'rm -rf "$D"' EXIT
@@ -24,7 +24,7 @@ notes=''
 try: notes=open(dst+'/notes.txt').read()
 except Exception: pass
 ok = ('passed' in tests and 'failed' not in tests and clean=='0' and patched=='1')
-json.dump(dict(property=id, variant=v, breaks=id, needs_to_manifest=notes.strip(),
+json.dump(dict(property=id, variant=dst.rsplit("-",1)[1], breaks=id, needs_to_manifest=notes.strip(),
   confirmed=ok,
   what_was_run=['git archive HEAD of /repo into a scratch dir; demo.py on the clean copy (exit %s)'%clean,
                 'git apply patch.diff; PYTHONPATH=<copy>/src /venv/bin/python -m pytest -q -x src/calmjs/parse/tests -> %s'%tests,
